@@ -14,7 +14,7 @@ open Pyg Pyg.Zip
 
 /-! ### the node map is a dictionary -/
 
-theorem find_setNode_same (nodes : List (Path × Kind)) (p : Path) (k : Kind) :
+theorem find_setNode_same (nodes : List (Path × Zip.Kind)) (p : Path) (k : Zip.Kind) :
     ((setNode nodes p k).find? (·.1 = p)).map (·.2) = some k := by
   induction nodes with
   | nil => simp [setNode]
@@ -24,7 +24,7 @@ theorem find_setNode_same (nodes : List (Path × Kind)) (p : Path) (k : Kind) :
     · simp [hx]
     · simp [hx, List.find?_cons, ih]
 
-theorem find_setNode_other (nodes : List (Path × Kind)) (p q : Path) (k : Kind) (hne : q ≠ p) :
+theorem find_setNode_other (nodes : List (Path × Zip.Kind)) (p q : Path) (k : Zip.Kind) (hne : q ≠ p) :
     (setNode nodes p k).find? (·.1 = q) = nodes.find? (·.1 = q) := by
   induction nodes with
   | nil => simp [setNode, hne.symm]
@@ -37,7 +37,7 @@ theorem find_setNode_other (nodes : List (Path × Kind)) (p q : Path) (k : Kind)
       · rw [if_neg hx]; simp [hq]
       · rw [if_neg hx]; simp [hq, ih]
 
-theorem kind_setNode (ix : Index) (p q : Path) (k : Kind) (hp : p ≠ []) :
+theorem kind_setNode (ix : Index) (p q : Path) (k : Zip.Kind) (hp : p ≠ []) :
     ({ ix with nodes := setNode ix.nodes p k } : Index).kind? q =
       if q = p then some k else ix.kind? q := by
   unfold Index.kind?
@@ -50,7 +50,7 @@ theorem kind_setNode (ix : Index) (p q : Path) (k : Kind) (hp : p ≠ []) :
     · subst hqp; simp [find_setNode_same]
     · simp [hqp, find_setNode_other _ _ _ _ hqp]
 
-theorem addDir_keeps (nodes : List (Path × Kind)) (p q : Path) (k : Kind)
+theorem addDir_keeps (nodes : List (Path × Zip.Kind)) (p q : Path) (k : Zip.Kind)
     (h : (nodes.find? (·.1 = q)).map (·.2) = some k) :
     ((addDirIfAbsent nodes p).find? (·.1 = q)).map (·.2) = some k := by
   unfold addDirIfAbsent
@@ -61,7 +61,7 @@ theorem addDir_keeps (nodes : List (Path × Kind)) (p q : Path) (k : Kind)
     | none => simp [hf] at h
     | some x => simpa [hf] using h
 
-theorem addDir_present (nodes : List (Path × Kind)) (p : Path) :
+theorem addDir_present (nodes : List (Path × Zip.Kind)) (p : Path) :
     ((addDirIfAbsent nodes p).find? (·.1 = p)).isSome = true := by
   unfold addDirIfAbsent
   split
@@ -74,7 +74,7 @@ theorem addDir_present (nodes : List (Path × Kind)) (p : Path) :
     simp [List.find?_append, this]
 
 /-- `ensureDirs` never changes a path that already exists, and only ever adds directories -/
-theorem ensureDirs_keeps (nodes : List (Path × Kind)) (pre cs : Path) (q : Path) (k : Kind)
+theorem ensureDirs_keeps (nodes : List (Path × Zip.Kind)) (pre cs : Path) (q : Path) (k : Zip.Kind)
     (h : (nodes.find? (·.1 = q)).map (·.2) = some k) :
     ((ensureDirs nodes pre cs).find? (·.1 = q)).map (·.2) = some k := by
   induction cs generalizing nodes pre with
@@ -83,7 +83,7 @@ theorem ensureDirs_keeps (nodes : List (Path × Kind)) (pre cs : Path) (q : Path
     simp only [ensureDirs]
     exact ih _ _ (addDir_keeps nodes _ q k h)
 
-theorem ensureDirs_head_present (nodes : List (Path × Kind)) (pre : Path) (c : Str) (r : Path) :
+theorem ensureDirs_head_present (nodes : List (Path × Zip.Kind)) (pre : Path) (c : Str) (r : Path) :
     ((ensureDirs nodes pre (c :: r)).find? (·.1 = pre ++ [c])).isSome = true := by
   simp only [ensureDirs]
   have hp := addDir_present nodes (pre ++ [c])
@@ -94,7 +94,7 @@ theorem ensureDirs_head_present (nodes : List (Path × Kind)) (pre : Path) (c : 
   | some z => rfl
 
 /-- after `ensureDirs`, every non-empty prefix `pre ++ take (i+1) cs` exists -/
-theorem ensureDirs_creates (nodes : List (Path × Kind)) (pre cs : Path) (i : Nat) (hi : i < cs.length) :
+theorem ensureDirs_creates (nodes : List (Path × Zip.Kind)) (pre cs : Path) (i : Nat) (hi : i < cs.length) :
     ((ensureDirs nodes pre cs).find? (·.1 = pre ++ cs.take (i + 1))).isSome = true := by
   induction cs generalizing nodes pre i with
   | nil => simp at hi
@@ -115,11 +115,11 @@ theorem ensureDirs_creates (nodes : List (Path × Kind)) (pre cs : Path) (i : Na
 def AliasOk (ix : Index) : Prop := ∀ lt ∈ ix.aliases, (ix.kind? lt.2).isSome = true
 
 theorem walk_lands_on_node (ix : Index) (hok : AliasOk ix) (cs cur p : Path)
-    (hcur : (ix.kind? cur).isSome = true) (h : walk ix cur cs = some p) : (ix.kind? p).isSome = true := by
+    (hcur : (ix.kind? cur).isSome = true) (h : Zip.walk ix cur cs = some p) : (ix.kind? p).isSome = true := by
   induction cs generalizing cur with
-  | nil => simp only [walk, Option.some.injEq] at h; rw [← h]; exact hcur
+  | nil => simp only [Zip.walk, Option.some.injEq] at h; rw [← h]; exact hcur
   | cons c r ih =>
-    simp only [walk] at h
+    simp only [Zip.walk] at h
     split at h
     · simp at h
     · cases ha : ix.alias? (cur ++ [c]) with
@@ -235,16 +235,16 @@ theorem lookup_through_links_lands_inside (ms : List Member) (ix : Index) (h : b
 theorem walk_plain (ix : Index) (hal : ix.aliases = []) (cur rest : Path)
     (hdirs : ∀ i, i < rest.length → ix.kind? (cur ++ rest.take i) = some .dir)
     (hall : ∀ i, i < rest.length → (ix.kind? (cur ++ rest.take (i + 1))).isSome = true) :
-    walk ix cur rest = some (cur ++ rest) := by
+    Zip.walk ix cur rest = some (cur ++ rest) := by
   induction rest generalizing cur with
-  | nil => simp [walk]
+  | nil => simp [Zip.walk]
   | cons c r ih =>
     have hd0 := hdirs 0 (by simp)
     simp only [List.take_zero, List.append_nil] at hd0
     have ha : ix.alias? (cur ++ [c]) = none := by simp [Index.alias?, hal]
     have hn := hall 0 (by simp)
     simp only [List.take_succ_cons, List.take_zero] at hn
-    simp only [walk, hd0, bne_self_eq_false, Bool.false_eq_true, if_false, ha, hn, if_true]
+    simp only [Zip.walk, hd0, bne_self_eq_false, Bool.false_eq_true, if_false, ha, hn, if_true]
     rw [ih (cur ++ [c])]
     · simp
     · intro i hi
@@ -259,7 +259,7 @@ theorem walk_plain (ix : Index) (hal : ix.aliases = []) (cur rest : Path)
     the archive shows the member where the extracted tree would. -/
 theorem member_found_at_its_path (ix : Index) (hal : ix.aliases = []) (p : Path)
     (hdirs : ∀ i, i < p.length → ix.kind? (p.take i) = some .dir) (hp : (ix.kind? p).isSome = true) :
-    walk ix [] p = some p := by
+    Zip.walk ix [] p = some p := by
   have := walk_plain ix hal [] p (by simpa using hdirs) (by
     intro i hi
     by_cases hlast : i + 1 = p.length
@@ -270,8 +270,8 @@ theorem member_found_at_its_path (ix : Index) (hal : ix.aliases = []) (p : Path)
 
 /-- a path below a file does not exist (files have no children) -/
 theorem nothing_below_a_file (ix : Index) (cur : Path) (o : Str) (c : Str) (cs : Path)
-    (h : ix.kind? cur = some (.file o)) : walk ix cur (c :: cs) = none := by
-  simp [walk, h]
+    (h : ix.kind? cur = some (.file o)) : Zip.walk ix cur (c :: cs) = none := by
+  simp [Zip.walk, h]
 
 /-! ### handlers that need a real file never act on archive members -/
 
